@@ -309,7 +309,40 @@ func runC01(r *engine.Run) {
 		c.Outcome(fmt.Sprintf("join/type%d", ch[0]))
 	})
 
-	// ---- join-accept (plain payload): all DLSettings x RXDelay x CFList kind
+	// ---- text form of short frames: every 1-byte and every 2-byte-pattern proprietary payload x MIC
+	// alphabet (base64 text that consists of hex digits only, of '+' '/' only, with and without padding)
+	r.PartDims("text-form/proprietary", []string{"payload: 256 one-byte values + 256 two-byte + 256 three-byte patterns", "MIC:4"}, 768*4, func(c *engine.Case) {
+		i := int(c.Index % 768)
+		mic := [][4]byte{{0, 0, 0, 0}, {0xFF, 0xFF, 0xFF, 0xFF}, {0xD3, 0x4D, 0x34, 0xD3}, {1, 2, 3, 4}}[c.Index/768]
+		var pl []byte
+		switch {
+		case i < 256:
+			pl = []byte{byte(i)}
+		case i < 512:
+			pl = []byte{byte(i), byte(i) ^ 0x5A}
+		default:
+			pl = []byte{byte(i), 0, byte(i) >> 2}
+		}
+		c.Eval()
+		c.NonTrivial()
+		p := lorawan.PHYPayload{MHDR: lorawan.MHDR{MType: lorawan.Proprietary, Major: lorawan.LoRaWANR1}, MACPayload: &lorawan.DataPayload{Bytes: pl}, MIC: lorawan.MIC(mic)}
+		want := append(append([]byte{0xE0}, pl...), mic[:]...)
+		t, err := p.MarshalText()
+		if err != nil || string(t) != base64.StdEncoding.EncodeToString(want) {
+			c.Fail("text-form/encode", fmt.Sprintf("frame %x: text %q (err %v), base64 of the specification bytes %q", want, t, err, base64.StdEncoding.EncodeToString(want)), nil)
+			return
+		}
+		var q lorawan.PHYPayload
+		if err := q.UnmarshalText(t); err != nil {
+			c.Fail("text-form/decoder-refuses-own-text", fmt.Sprintf("frame %x as %q: %v", want, t, err), nil)
+			return
+		}
+		if deepPrint(q) != deepPrint(p) {
+			c.Fail("text-form/decoded-frame-differs", fmt.Sprintf("frame %x as %q decodes to %s", want, t, deepPrint(q)), nil)
+		}
+	})
+
+
 	spA := (&engine.Space{}).Dim("dlsettings", 256).Dim("rxdelay", 16).Dim("cflist", 3)
 	jaRoundTrip := func(c *engine.Case, class string, j jaValue, lib *lorawan.JoinAcceptPayload, wire []byte, expectDecoded *lorawan.JoinAcceptPayload) {
 		c.Eval()
